@@ -6,7 +6,7 @@
     requested components, once each; sequence kept (or '*'); tags kept, plus exactly one BO:i and one NO:i; links = links of
     those components, once each in either spelling, same overlap and tags; all S lines before all L lines, nothing else;
     S lines in strictly increasing (BO, NO) order; CSV has every node once with the BO/NO of the GFA and the role
-    (orange = articulation point, blue = other) computed by the oracle.
+    (orange = scaffold node: articulation point, or the only node of a one-segment chromosome; blue = other) computed by the oracle.
 (B) GFA(path) -> write_gfa -> independent reader on arbitrary small GFAs (not chains): equal segments (sequence with
     low_memory=False, '*' with low_memory=True), equal tags, equal link multiset; the written file re-loads to a graph the
     library itself calls equal; writing a union of components gives exactly those components.
@@ -77,7 +77,8 @@ def check_order(d, case):
             bad.append("%s.csv: nodes listed %s, expected every node of the component(s) exactly once" % (stem, sorted(names)[:8]))
             continue
         gfa_bono = dict((nid, bn) for bn, nid in keys)
-        artic = set().union(*[c.artic for c in chs])
+        # role: scaffold = the 's' elements of the chain (the articulation points; for a one-segment chromosome its only node, which gets NO = 0)
+        artic = {e[1] for c in chs for e in (c.elements or []) if e[0] == "s"}
         for r in rows:
             if len(r) != 6:
                 bad.append("%s.csv: malformed row %s" % (stem, r))
